@@ -270,7 +270,13 @@ def run(chk):
             # the explicit N0 may be any real number type (an element of an integer array, a float32, a 0-d array)
             if cname != "InitialBHPopulation":
                 for n0_alt in (np.int64(int(N0)), np.float32(N0), np.array(N0), int(N0)):
-                    o_t = cls(imf_b, [3, 3, 10], -1.0, [9000.0], -10.0, *pos, N0=n0_alt, **ex)
+                    try:
+                        o_t = cls(imf_b, [3, 3, 10], -1.0, [9000.0], -10.0, *pos, N0=n0_alt, **ex)
+                    except Exception as e_t:  # noqa
+                        chk.fail("an IMF object's own N0 is irrelevant once N0 is passed explicitly; from_powerlaw is equivalent to passing the IMF object",
+                                 dict(cls=cname, variant="N0 given as %s (IMF object with own N0 = 1, used before)" % type(n0_alt).__name__, extra=extra),
+                                 dict(error=type(e_t).__name__, msg=str(e_t)[:120]))
+                        continue
                     a_t = np.r_[o_t.Ns[0], o_t.alpha[0], o_t.Ms[0], o_t.Nr.WD[0], o_t.Nr.BH[0], o_t.Mr.BH[0]]
                     if not np.allclose(np.nan_to_num(a_t), np.nan_to_num(arrs[0]), rtol=1e-6, atol=1e-6 * N0):
                         chk.fail("an IMF object's own N0 is irrelevant once N0 is passed explicitly; from_powerlaw is equivalent to passing the IMF object",
